@@ -96,7 +96,9 @@ def generate_registration_options(
     if not user_display_name:
         user_display_name = user_name
 
-    pub_key_cred_params = default_supported_pub_key_params
+    # Build a new list on every call: handing out the module-level default list would let one
+    # caller's changes to the returned options leak into every later call
+    pub_key_cred_params = _generate_pub_key_cred_params(default_supported_pub_key_algs)
     if supported_pub_key_algs:
         pub_key_cred_params = _generate_pub_key_cred_params(supported_pub_key_algs)
 
